@@ -28,7 +28,7 @@ for p in props:
     })
 man = {
     'version': 1,
-    'setup_cmd': '/venv/bin/python -c "import hypothesis" 2>/dev/null || /venv/bin/pip install --no-index --find-links /opt/veriftools/wheels hypothesis',
+    'setup_cmd': '(/venv/bin/python -c "import hypothesis" 2>/dev/null || /venv/bin/pip install --no-index --find-links /opt/veriftools/wheels hypothesis) && (test -d .deps/atheris || /venv/bin/pip install -q --no-index --find-links /opt/veriftools/wheels --target .deps atheris || true)',
     'hooks': {
         'guard': 'KFAC_PYTORCH_VERIF',
         'enable': 'none needed: checks import kfac from /repo\'s working tree and observe it by patching torch.distributed.*, torch.futures.Future, kfac.tracing.time and sys.modules[deepspeed...] from the harness; the guard variable is exported by ./check but no repository code reads it',
